@@ -256,6 +256,8 @@ def main(tier):
             main_text = common.unb64(cs["files"][cs["root"]])[:600]
             chk.violation("real pipeline %s | site %s | %s input %s: %r" % (bad, site, k, cid, main_text),
                           {"kind": "totality", "case": cs, "observed": o, "signature": sig}, sig)
+    import typegraph
+    typegraph.run(chk, tier, "C01")
     chk.extra["runs_by_driver"] = per_kind
     chk.sample({"drivers": sorted(per_kind), "example_input": common.unb64(cases[len(cases) // 3]["files"][cases[len(cases) // 3]["root"]]).decode("latin1")[:200]})
     chk.rule = "every input is one real run with a deadline in a crash-isolated child; distinct = distinct inputs (see runs_by_driver)"
@@ -267,6 +269,10 @@ def main(tier):
 def replay(path):
     rp = json.load(open(path))["replay"]
     chk = Check("C01", "quick")
+    if rp.get("kind") == "typegraph":
+        import typegraph
+        typegraph.replay(chk, "C01", rp)
+        return chk.finish()
     chk.evaluations = 1
     o = harness("run", [rp["case"]])[rp["case"]["id"]]
     if o["outcome"] in ("panic", "fatal", "timeout"):
